@@ -924,6 +924,14 @@ class Interp:
             if cell[0] == 'o':
                 self.pointee_init(st, cell, None)
                 v = st.cells[cell]
+            elif cell[0] == 'k' and cell in self.kcells:
+                v = self.kcells[cell]
+                if not path:
+                    return v
+                _, out = self._nav_read(st, v, path, 0)
+                if out[0] == 'T' and out[1] is None and tyid is not None:
+                    return ('T', tyid, out[2])
+                return out
             else:
                 return ('T', tyid, None)
         if not path:
@@ -1241,8 +1249,8 @@ class Interp:
     def intern_const_ref(self, st, v):
         """('Rk', cell, value, raw) -> real reference to an immutable constant cell"""
         cell = v[1]
-        if cell not in st.cells:
-            st.cells[cell] = v[2]
+        if cell not in self.kcells:
+            self.kcells[cell] = v[2]
         return ('R', cell, (), False)
 
     def operand(self, st, frame, o):
@@ -2150,7 +2158,7 @@ class CallMixin:
             else:
                 self._last_closure_ret = join(self._last_closure_ret, self.deep_resolve(st, v))
             out.append(st)
-        return self.limit(out, site=(frame.pathid, b, 'ret'))
+        return self.limit(out, site=(frame.pathid, b, 'ret'), depth=frame.depth)
 
     def closure_bodies_in(self, frame, t):
         """(arg index, closure body) for closure-typed arguments (by value or by reference)"""
@@ -2367,6 +2375,8 @@ class Engine(Interp, InterpOps, CallMixin, ZoneMixin):
         self.stmt_hook = None
         self.call_hook = None
         self.loops_seen = set()
+        self.kcells = {}
+        self.gc_roots = set()
         self.loop_info = {}
         self.unroll = 16
         self.layout_hook = None
@@ -2410,40 +2420,35 @@ class Engine(Interp, InterpOps, CallMixin, ZoneMixin):
                     sig.append((k, tuple(i for i, _ in v[2] if i in al)))
         return (s.tags, frozenset(sig))
 
-    def limit(self, sts, K=None, site=None):
+    def limit(self, sts, K=None, site=None, depth=None):
         sts = self.dedupe(sts)
         K = K or self.K
         if len(sts) <= K:
             return sts
-        groups = {}
-        for s in sts:
-            groups.setdefault(self.shape_sig(s), []).append(s)
-        glist = list(groups.values())
-        if len(glist) >= K:
-            merged = []
-            for g in glist:
-                cur = g[0]
-                for s in g[1:]:
-                    cur = join_states(cur, s, site)
-                merged.append(cur)
-            return self.agglomerate(self.dedupe(merged), K, site)
-        # fewer shapes than the budget: every shape keeps at least one state
-        extra = K - len(glist)
-        over = [max(len(g) - 1, 0) for g in glist]
-        tot = sum(over) or 1
-        quotas = [1 + (extra * o) // tot for o in over]
-        out = []
-        for g, q in zip(glist, quotas):
-            out.extend(self.agglomerate(g, q, site))
-        return out
+        return self.agglomerate(sts, K, site, depth)
 
-    def agglomerate(self, sts, K, site):
-        """greedy merge of the two closest states (item-set distance) until at most K remain"""
+    def agglomerate(self, sts, K, site, depth=None):
+        """greedy merge of the two closest states until at most K remain.  Distance is
+        lexicographic: (differences outside the current frame incl. refinements, differences in
+        the current frame) - states that only differ in locals of the innermost frame go first."""
         import heapq
         if len(sts) <= K:
             return sts
         if len(sts) > 6 * K + 8:
-            # far too many: first fold neighbours in arrival order
+            # far too many for pairwise comparison: fold states of equal shape first
+            groups = {}
+            for s in sts:
+                groups.setdefault(self.shape_sig(s), []).append(s)
+            sts = []
+            for g in groups.values():
+                while len(g) > 2:
+                    nxt_ = []
+                    for i in range(0, len(g) - 1, 2):
+                        nxt_.append(join_states(g[i], g[i + 1], site))
+                    if len(g) % 2:
+                        nxt_.append(g[-1])
+                    g = nxt_
+                sts.extend(g)
             while len(sts) > 6 * K + 8:
                 nxt_ = []
                 for i in range(0, len(sts) - 1, 2):
@@ -2457,9 +2462,27 @@ class Engine(Interp, InterpOps, CallMixin, ZoneMixin):
 
         def items_of(s):
             try:
-                return frozenset(s.cells.items())
+                fs = set(s.cells.items())
             except TypeError:
-                return frozenset((k, repr(v)) for k, v in s.cells.items())
+                fs = set((k, repr(v)) for k, v in s.cells.items())
+            for t, r in s.rf.items():
+                fs.add(('rf', t, r))
+            for e, vs in s.erf.items():
+                fs.add(('erf', e, vs))
+            for tg in s.tags:
+                fs.add(('tag', tg))
+            return frozenset(fs)
+
+        def dist(a, b):
+            df = a ^ b
+            if depth is None:
+                return (len(df), 0)
+            inner = 0
+            for it in df:
+                k = it[0]
+                if k.__class__ is tuple and k[0] == depth:
+                    inner += 1
+            return (len(df) - inner, inner)
         live = {i: s for i, s in enumerate(sts)}
         isets = {i: items_of(s) for i, s in live.items()}
         heap = []
@@ -2467,7 +2490,7 @@ class Engine(Interp, InterpOps, CallMixin, ZoneMixin):
         for x in range(len(ids)):
             ix = isets[ids[x]]
             for y in range(x + 1, len(ids)):
-                heap.append((len(ix ^ isets[ids[y]]), ids[x], ids[y]))
+                heap.append((dist(ix, isets[ids[y]]), ids[x], ids[y]))
         heapq.heapify(heap)
         nxt = len(sts)
         while len(live) > K and heap:
@@ -2485,24 +2508,69 @@ class Engine(Interp, InterpOps, CallMixin, ZoneMixin):
                 continue
             im = items_of(m)
             for o, io in isets.items():
-                heapq.heappush(heap, (len(io ^ im), o, nxt))
+                heapq.heappush(heap, (dist(io, im), o, nxt))
             live[nxt] = m
             isets[nxt] = im
             nxt += 1
         return [live[i] for i in sorted(live)]
 
     def prune(self, st, frame, b):
+        """state GC at a join: a local of the current frame survives if it is live (direct future
+        use) or reachable through references from something that survives"""
         info = frame.info
         live = info.live_in[b]
-        borrowed = info.borrowed
         d = frame.depth
-        dead = [k for k in st.cells if k[0] == d and k[1] not in live and k[1] not in borrowed]
-        for k in dead:
-            del st.cells[k]
+        cells = st.cells
+        roots = self.gc_roots
+        cand = [k for k in cells if ((k[0] == d and k[1] not in live) or k[0] == 'o') and k not in roots]
+        if not cand:
+            return
+        candset = set(cand)
+        reached = set()
+        stack = []
+
+        def walk(v):
+            k = v[0]
+            if k == 'R':
+                c = v[1]
+                if c is not None and c in candset and c not in reached:
+                    reached.add(c)
+                    stack.append(c)
+            elif k == 'A':
+                for x in v[1]:
+                    if x[0] not in ('I', 'F'):
+                        walk(x)
+            elif k == 'E':
+                for _, fs in v[2]:
+                    for x in fs:
+                        if x[0] not in ('I', 'F'):
+                            walk(x)
+            elif k == 'S':
+                if v[2][0] not in ('I', 'F'):
+                    walk(v[2])
+                if v[3] is not None:
+                    for x in v[3]:
+                        if x[0] not in ('I', 'F'):
+                            walk(x)
+            elif k == 'O':
+                for x in v[2]:
+                    if isinstance(x, tuple) and x and x[0] in ('R', 'A', 'E', 'S', 'O'):
+                        walk(x)
+        for k, v in cells.items():
+            if k not in candset and v[0] not in ('I', 'F'):
+                walk(v)
+        while stack:
+            c = stack.pop()
+            v = cells.get(c)
+            if v is not None and v[0] not in ('I', 'F'):
+                walk(v)
+        for k in cand:
+            if k not in reached:
+                del cells[k]
 
     def gc_refinements(self, st):
-        """drop refinements of terms no longer mentioned by any cell (keeps states comparable)"""
-        if len(st.rf) < 24 and len(st.erf) < 24:
+        """drop refinements and facts about terms no longer mentioned by any cell"""
+        if not st.rf and not st.erf and not st.facts:
             return
         used = set()
         eused = set()
@@ -2527,26 +2595,52 @@ class Engine(Interp, InterpOps, CallMixin, ZoneMixin):
                 if v[3] is not None:
                     for x in v[3]:
                         walk(x)
+            elif k == 'O':
+                for x in v[2]:
+                    if isinstance(x, tuple) and x and x[0] in ('I', 'F', 'A', 'E', 'S', 'O'):
+                        walk(x)
 
         def collect(t):
             if t in used:
                 return
             used.add(t)
+            if t[0] == 'discr':
+                eused.add(t[1])
             for x in t[1:]:
                 if isinstance(x, tuple) and x and isinstance(x[0], str):
                     collect(x)
         for v in st.cells.values():
             walk(v)
-        for f in st.facts:
-            for x in f[1:]:
-                if isinstance(x, tuple):
-                    collect(x)
+
+        def alive(t):
+            """every atom of t is still held by some cell"""
+            if t in used:
+                return True
+            op = t[0]
+            if op == 'c':
+                return True
+            if op == 'bits':
+                return True      # positional: a re-read of the same bits yields the same term
+            if op in ('o', 'j', 'len', 'e', 'discr', 'p'):
+                return False
+            ok = True
+            for x in t[1:]:
+                if isinstance(x, tuple) and x and isinstance(x[0], str):
+                    if not alive(x):
+                        ok = False
+                        break
+            return ok
         for t in list(st.rf):
-            if t not in used:
+            if t not in used and not alive(t):
                 del st.rf[t]
         for e in list(st.erf):
             if e not in eused:
                 del st.erf[e]
+        if st.facts:
+            nf = frozenset(f for f in st.facts
+                           if all(not isinstance(x, tuple) or alive(x) for x in f[1:]))
+            if len(nf) != len(st.facts):
+                st.facts = nf
 
     # ---- running a body
     def run_body(self, frame, in_states, quiet=False):
@@ -2593,7 +2687,7 @@ class Engine(Interp, InterpOps, CallMixin, ZoneMixin):
                     self.prune(s, frame, b)
                     self.gc_refinements(s)
                     cp.append(s)
-                ins = self.limit(cp, site=(frame.pathid, b))
+                ins = self.limit(cp, site=(frame.pathid, b), depth=frame.depth)
             if b in info.loop_heads and b != head:
                 for dst, sts in self.run_loop(frame, b, ins, quiet, rets).items():
                     route(dst, sts)
@@ -2626,7 +2720,7 @@ class Engine(Interp, InterpOps, CallMixin, ZoneMixin):
                 s = self.strip_loop(s, frame, h)
                 self.gc_refinements(s)
                 out.append(s)
-            return self.limit(out, site=(frame.pathid, h))
+            return self.limit(out, site=(frame.pathid, h), depth=frame.depth)
         cur = prep(in_states)
         seen = list(cur)
         it = 0
